@@ -18,7 +18,17 @@ pub struct Report { pub violations: Vec<(String, String)>, pub log: Vec<String>,
 pub struct Gate { entered: Mutex<bool>, entered_cv: Condvar, open: Mutex<bool>, open_cv: Condvar }
 impl Gate {
     fn new() -> Arc<Gate> { Arc::new(Gate { entered: Mutex::new(false), entered_cv: Condvar::new(), open: Mutex::new(false), open_cv: Condvar::new() }) }
-    fn wait_entered(&self) { let mut e = self.entered.lock().unwrap(); while !*e { e = self.entered_cv.wait(e).unwrap(); } }
+    /// false when nobody parked at the gate within the time allowed (the code under test no longer clones the datum there)
+    fn wait_entered(&self, ms: u64) -> bool {
+        let mut e = self.entered.lock().unwrap();
+        let deadline = std::time::Instant::now() + std::time::Duration::from_millis(ms);
+        while !*e {
+            let now = std::time::Instant::now();
+            if now >= deadline { return false; }
+            e = self.entered_cv.wait_timeout(e, deadline - now).unwrap().0;
+        }
+        true
+    }
     fn release(&self) { *self.open.lock().unwrap() = true; self.open_cv.notify_all(); }
 }
 pub struct Val { pub v: u32, gate: Option<Arc<Gate>>, armed: Arc<AtomicBool> }
@@ -97,7 +107,14 @@ pub fn combine_block() -> Report {
     r.log.lock().unwrap().push("thread A: a -> Data(1)   (parked inside the clone of its datum, i.e. inside vals.rcu)".into());
     let a2 = a.clone();
     let ta = std::thread::spawn(move || catch_unwind(AssertUnwindSafe(|| a2.data(va))).map_err(|e| panic_msg(e)));
-    gate.wait_entered();
+    if !gate.wait_entered(3000) {
+        // the schedule cannot be set up on this code (member a's delivery never runs the clone of its datum inside
+        // combine): nothing is claimed by this scenario, the stress scenario is the one to look at
+        gate.release();
+        let _ = ta.join();
+        r.log.lock().unwrap().push("member a's delivery did not clone its datum: the schedule does not apply".into());
+        return finish(&r, 1);
+    }
     r.log.lock().unwrap().push("thread B: b -> Data(7)".into());
     let b2 = b.clone();
     let tb = std::thread::spawn(move || catch_unwind(AssertUnwindSafe(|| b2.data(7))).map_err(|e| panic_msg(e)));
